@@ -13,8 +13,35 @@ func init() {
 	for _, id := range []string{"C01", "C06", "C07"} {
 		id := id
 		register(&Prop{ID: id,
-			Run:   func(c *Ctx) { runPoolWorlds(c, id, nil) },
-			Exec2: func(c *Ctx, ops []string) ([]string, []string) { return runPoolWorlds(c, id, ops) },
+			Run: func(c *Ctx) {
+				runPoolWorlds(c, id, nil)
+				if id == "C01" {
+					// exclusivity across a daemon restart (the pool is rebuilt from the stored records by Local.load): the
+					// daemon world of C05 with its restart / crash ops; its double-allocation and lost-binding monitors count
+					// for C01 under their own names
+					sub := &Ctx{Tier: c.Tier, Seed: c.Seed, R: c.R, Dist: c.Dist, Extra: c.Extra, Replay: c.Replay}
+					runDaemonWorld(sub, "C05", nil)
+					c.Cases = append(c.Cases, sub.Cases...)
+					for _, v := range sub.Viol {
+						if v.Key == "C05/double-allocation" || v.Key == "C05/restart/binding-lost" || v.Key == "C05/restart/two-records-one-address" {
+							c.Violate("C01/daemon"+strings.TrimPrefix(v.Key, "C05"), v.What, v.Lines...)
+						}
+					}
+				}
+			},
+			Exec2: func(c *Ctx, ops []string) ([]string, []string) {
+				if len(ops) > 0 && strings.HasPrefix(ops[0], "dm.") {
+					sub := &Ctx{Tier: c.Tier, Seed: c.Seed, R: c.R, Dist: c.Dist, Extra: c.Extra, Replay: c.Replay}
+					l, o := runDaemonWorld(sub, "C05", ops)
+					for _, v := range sub.Viol {
+						if v.Key == "C05/double-allocation" || v.Key == "C05/restart/binding-lost" || v.Key == "C05/restart/two-records-one-address" {
+							c.Violate("C01/daemon"+strings.TrimPrefix(v.Key, "C05"), v.What, v.Lines...)
+						}
+					}
+					return l, o
+				}
+				return runPoolWorlds(c, id, ops)
+			},
 		})
 	}
 }
